@@ -61,6 +61,7 @@ Fragment 𝔽₂ (function bodies with statements, `Model/CSem2.lean`, `Model/Lo
            | (adecl K TY N)                       `TY a[N];` - variable K is an array (stage E)
            | (aload D DT A TY N EXPR)             `x = a[EXPR];` x = variable D of type DT, a = variable A
            | (astore A TY N IDX EXPR)             `a[IDX] = EXPR;` (EXPR converted to TY)
+           | (ainit A TY N J EXPR)                element J of the initialiser list of `TY a[N] = {…};`
     In (decl K TY EXPR), (set …), (expr …), (ret …) the EXPR may contain (idx TY A N EXPR) - `a[EXPR]`, a the
     array variable A of N elements of type TY - and (calle RT NAME EXPR …) - a call; their operands are pure.
            | (pload D DT K TY W EXPR)             `x = p[EXPR];` p = parameter K, declared `const TY p[W]`
@@ -235,6 +236,8 @@ def parseStmtF : Nat → SExp → Except String Stmt
       pure (.callp d (← parseTy rt) name pa (← args.mapM (parseExprF n)))
     | .list [.atom "astore", a, t, cnt, x, v] => do
       pure (.astore (← parseNat a) (← parseTy t) (← parseNat cnt) 0 (← parseExprF n x) (← parseExpr3F n v))
+    | .list [.atom "ainit", a, t, cnt, j, v] => do
+      pure (.ainit (← parseNat a) (← parseTy t) (← parseNat cnt) 0 (← parseNat j) (← parseExpr3F n v))
     | _ => .error "statement"
 
 /-- fill in the cell numbers of the array elements (`CSem2.xbase`), which the layout determines -/
@@ -261,6 +264,7 @@ def setXb (cnts : List Nat) (wb : Nat → Nat) : CSem2.Stmt → CSem2.Stmt
   | .adecl i t n _ => .adecl i t n (CSem2.xbase cnts i)
   | .aload d dt a t n _ x => .aload d dt a t n (CSem2.xbase cnts a) x
   | .astore a t n _ x v => .astore a t n (CSem2.xbase cnts a) x (setXb3 cnts v)
+  | .ainit a t n _ j v => .ainit a t n (CSem2.xbase cnts a) j (setXb3 cnts v)
   | .pload d dt k t w _ x => .pload d dt k t w (wb k) x
   | .callp d rt fn pa args => .callp d rt fn (pa.map fun a => (a.1, a.2.1, a.2.2.1, CSem2.xbase cnts a.1)) args
   | st => st
